@@ -37,6 +37,21 @@ inline BoolOut boolop(int ct, int fr, const vf::Paths& subj, const vf::Paths& cl
   return o;
 }
 
+// same operation with every closed path handed over through a ReuseableDataContainer64 (the second way of loading a Clipper64)
+inline BoolOut boolop_reuse(int ct, int fr, const vf::Paths& subj, const vf::Paths& clip, bool pc = true, bool rs = false) {
+  BoolOut o;
+  ReuseableDataContainer64 rd;
+  if (!subj.empty()) rd.AddPaths(to64(subj), PathType::Subject, false);
+  if (!clip.empty()) rd.AddPaths(to64(clip), PathType::Clip, false);
+  Clipper64 c;
+  c.PreserveCollinear(pc); c.ReverseSolution(rs);
+  c.AddReuseableData(rd);
+  Paths64 sc, so;
+  o.ok = c.Execute((ClipType)ct, (FillRule)fr, sc, so);
+  o.closed = from64(sc); o.open = from64(so);
+  return o;
+}
+
 inline void copy_tree(const PolyPath64& pp, TNode& n) {
   n.poly = from64(pp.Polygon()); n.is_hole = pp.IsHole(); n.level = pp.Level();
   n.kids.resize(pp.Count());
